@@ -1,4 +1,5 @@
-"""C03 xdynamic_bitset / view vs std::vector<bool>: explicit-state BFS (E1) to fixpoint for narrow blocks, depth-bounded for wide ones."""
+"""C03 xdynamic_bitset / view vs std::vector<bool>: explicit-state BFS (E1) to fixpoint for narrow blocks, depth-bounded for wide ones;
+size sweep, allocation faults, held handles / query interleavings (bounded histories), initializer lists of every length (see NOTES.md)."""
 import os
 import vlib
 
@@ -16,6 +17,36 @@ SWEEP = os.path.join(HERE, "sweep.cpp")
 
 def build_sweep():
     return vlib.compile_cxx(SWEEP, "c03sw", std="c++14", opt="-O1", san="asan")
+
+
+LISTS = os.path.join(HERE, "lists.cpp")
+HANDLES = os.path.join(HERE, "handles.cpp")
+
+
+def build_lists():
+    return vlib.compile_cxx(LISTS, "c03li", std="c++14", opt="-O1", san="asan")
+
+
+def build_handles():
+    return vlib.compile_cxx(HANDLES, "c03hd", std="c++14", opt="-O1", san="asan")
+
+
+# the handle part executes millions of short histories, each on a fresh world: a small quarantine keeps its resident size at ~100 MB
+HANDLES_ENV = {"ASAN_OPTIONS": vlib.ASAN_ENV + ":quarantine_size_mb=32"}
+BLOCKS = ("u8", "u16", "u32", "u64")
+
+
+def plan_lists(tier):
+    if tier == "quick":
+        return [["--block", b, "--lmax", "136", "--xmax", "10"] for b in BLOCKS]
+    return [["--block", b, "--lmax", "200", "--xmax", "13", "--pairs"] for b in BLOCKS]
+
+
+def plan_handles(tier):
+    if tier == "quick":
+        return [["--block", b, "--kind", k, "--depth", "3"] for k in ("view", "own") for b in reversed(BLOCKS)]
+    return ([["--block", b, "--kind", k, "--depth", "4"] for k in ("view", "own") for b in reversed(BLOCKS)] +
+            [["--block", b, "--kind", k, "--depth", "3", "--wide"] for k in ("view", "own") for b in reversed(BLOCKS)])
 
 
 def plan(tier):
@@ -51,11 +82,14 @@ def plan(tier):
 
 
 def run(ctx):
-    binary, sw = vlib.parallel([build, build_sweep])
+    binary, sw, li, hd = vlib.parallel([build, build_sweep, build_lists, build_handles])
     dl = str(int(max(60, ctx.time_left() - 30)))
     jobs = [(lambda a=a: ctx.run_harness(binary, a + ["--deadline", dl], tag="c03")) for a in plan(ctx.tier)]
     nmax = "2200" if ctx.tier == "quick" else "6400"
-    jobs += [(lambda b=b: ctx.run_harness(sw, ["--block", b, "--nmax", nmax], tag="c03sw")) for b in ("u8", "u16", "u32", "u64")]
+    jobs += [(lambda b=b: ctx.run_harness(sw, ["--block", b, "--nmax", nmax], tag="c03sw")) for b in BLOCKS]
+    # these jobs are queued behind the ones above: their deadline is computed when they start
+    jobs += [(lambda a=a: ctx.run_harness(hd, a + ["--deadline", str(int(max(30, ctx.time_left() - 30)))], tag="c03hd", env=HANDLES_ENV)) for a in plan_handles(ctx.tier)]
+    jobs += [(lambda a=a: ctx.run_harness(li, a, tag="c03li")) for a in plan_lists(ctx.tier)]
     vlib.parallel(jobs)
     ctx.rule = ("BFS over raw states (size, block count, every block incl. bits beyond size()) of real xdynamic_bitset / xdynamic_bitset_view objects; "
                 "every operation instance of the alphabet (constructors, assign x3, resize(s[,b]), clear, push/pop_back, set/reset/flip all and per bit, reference and iterator writes, "
@@ -65,19 +99,37 @@ def run(ctx):
                 "are also run with the k-th allocation failing for every k; afterwards block_count, the unused-bit invariant and all queries must be consistent. "
                 "SIZE SWEEP (sweep.cpp): every size 0..2200 (quick) / 0..6400 (thorough) x 8 structured patterns (ones, zeros, alternating, every third, last only, all but first, one byte lane, ones with a hole per 64) x 4 block types, "
                 "built through proxies, bulk constructors, set/flip/reset/resize and push_back, as bitset and as view: size/count/any/all/none/every bit/iteration, complement and & | ^ identities, shifts by 1, w, w+1, single-bit inequality. "
-                "distinct_nontrivial = distinct raw states reached")
+                "HELD HANDLES AND QUERY INTERLEAVINGS (handles.cpp): the world is one container (owning bitset, or a view object that lives across the operations) plus at most one HELD handle "
+                "(element reference from operator[] / at() / *iterator / front()/back(), pointer to an element reference, iterator, reverse iterator, for views a second view over the same caller memory: a copy, and one made from data()); "
+                "alphabet: acquire the handle, every write the handle offers, read through it, each const query as an operation of its own (size/empty/block_count, count, any, all, none, const []/at, const iteration, ==), "
+                "non-const reads ([], begin(), data()), non-resizing mutators (set/reset/flip of one bit and of all bits, b[j].flip(), <<=1, >>=1); ALL histories up to length 3 (thorough: 4, and length 3 over more sizes/contents/positions), "
+                "each executed on a fresh world with no oracle read in between (hidden state cannot be keyed, so histories are never merged), then the final battery (const queries, handle read, non-const reads, count/any/all again, caller memory); "
+                "4 block types x {owning, view} x size w+1 x mixed content x 3 (handle, mutator) positions x every handle kind (quick). "
+                "BOOL LISTS (lists.cpp): std::initializer_list<bool> of EVERY length 0..136 (thorough 0..200) x content (all 2^L contents for L <= 10 (13); above: 9 structured contents + a walking one and a walking zero at every position; "
+                "thorough: every pair of set bits at lengths w-1, w, w+1, 2w+1 of every block width) x 4 block types x 9 routes (constructor, constructor with allocator, copy-list-initialisation, assign() onto 6 earlier contents): "
+                "all queries, unused-bit invariant, == against push_back-built and set(i)-built bitsets. "
+                "distinct_nontrivial = distinct raw states reached by the BFS parts; evaluations = BFS transitions + history executions of the handle part + list constructions/assignments judged")
     ctx.stats["distinct_nontrivial"] = ctx.stats.get("states", 0)
-    ctx.stats["evaluations"] = ctx.stats.get("transitions", 0)
+    ctx.stats["evaluations"] = ctx.stats.get("transitions", 0) + ctx.stats.get("handle_history_runs", 0) + ctx.stats.get("list_evaluations", 0)
     ctx.assumptions += [
         "std::vector<bool> and zero-fill shift semantics are the reference",
         "operations with a precondition the statement does not cover are not in the alphabet: pop_back/front/back on empty, set/reset/flip/[] with pos >= size, binary operators on operands of different size, use of a moved-from bitset",
         "uint32_t/uint64_t blocks are explored to a depth bound with boundary bit indices (2^(2w+1) patterns cannot be exhausted); the code is generic in the block type and the narrow types carry the exhaustive part",
         "count() on an empty owning bitset is not called (it forms &m_buffer[0] of an empty vector, which no property mentions)",
+        "held handles: only operations that keep the size are applied while a handle is held (resizing invalidates references and iterators, as for std::vector<bool>); an owning bitset written through a foreign view of its data() is not in the statement and is not enumerated (a second view over the same CALLER memory is)",
+        "the handle part is bounded by history length, not run to a fixpoint: what a container may remember between calls is invisible, so two histories are never identified",
+        "initializer lists: the length is a compile-time property (one instantiation per length 0..200), the content is enumerated at run time",
     ]
 
 
 def replay(ctx, rec):
     if rec["args"] and rec["args"][0] == "--sweep-only":
         ctx.run_harness(build_sweep(), rec["args"], tag="c03sw")
+        return
+    if rec["args"] and rec["args"][0] == "--only":
+        ctx.run_harness(build_lists(), rec["args"], tag="c03li")
+        return
+    if len(rec["args"]) > 1 and rec["args"][0] == "--replay" and "/hold-" in rec["args"][1]:
+        ctx.run_harness(build_handles(), rec["args"], tag="c03hd", env=HANDLES_ENV)
         return
     ctx.run_harness(build(), rec["args"], tag="c03")
